@@ -36,9 +36,12 @@ const (
 	EOF     End = iota // peer closed
 	Timeout            // read deadline exceeded (*net.OpError, Timeout()==true)
 	Reset              // ECONNRESET
+	// EOFWithLast: peer closed, and the Read that delivers the last bytes reports it at once (n > 0, io.EOF), as
+	// crypto/tls does when the close_notify record arrives together with the last data record
+	EOFWithLast
 )
 
-func (e End) String() string { return [...]string{"EOF", "Timeout", "Reset"}[e] }
+func (e End) String() string { return [...]string{"EOF", "Timeout", "Reset", "EOFWithLast"}[e] }
 
 // ReadEvent records a wire Read issued while the handler-phase flag was set.
 type ReadEvent struct {
@@ -148,6 +151,9 @@ func (c *Conn) Read(p []byte) (int, error) {
 		c.HandlerReads = append(c.HandlerReads, ReadEvent{c.Delivered, n})
 	}
 	c.Delivered += n
+	if c.end == EOFWithLast && c.fi >= len(c.frags) {
+		return n, io.EOF
+	}
 	return n, nil
 }
 
